@@ -7,9 +7,10 @@
 # programs with the expected observation after every construction (all clients' effective
 # configuration, the package default, an option-less later client) and the expected Hello of
 # each client; harness/cmd/clientcfg runs them on the real opcua.NewClient / Client.Dial.
-# A second TLC pass computes what the as-is model (Dev_SharedDefaultAck) predicts for the
-# same programs, so that a run that deviates from the contract exactly as that model says is
-# attributed to that one known defect, and anything else is a new violation.
+# The shared default was a genuine defect of the pinned tree (repaired in /repo, see
+# findings/uacp.txt); Dev_SharedDefaultAck = TRUE is kept as the non-vacuity demo.  Only if the
+# entry is re-opened does a second TLC pass compute the as-is model's prediction, so that a run
+# deviating exactly as that model says is attributed to that one known defect.
 import json
 import os
 import vf
@@ -37,19 +38,25 @@ def body(run):
     rows = res[1].rows + res[2].rows
     if len(rows) < 100:
         raise vf.Inconclusive("TLC emitted only %d programs" % len(rows))
-    progs = "".join(json.dumps({"prog": r["prog"]}) + "\n" for r in rows)
-    asis = run.tlc(F, M, M + "_asis.cfg", mode="gen", count=False, timeout=3000, files={"progs.ndjson": progs},
-                   label="as-is model (Dev_SharedDefaultAck) on the same programs")
-    bykey = {json.dumps(r["prog"], sort_keys=True): r["hist"] for r in asis.rows}
-    missing = 0
-    for r in rows:
-        a = bykey.get(json.dumps(r["prog"], sort_keys=True))
-        if a is None:
-            missing += 1
-        else:
-            r["asis"] = a
-    if missing:
-        raise vf.Inconclusive("as-is pass lost %d of %d programs" % (missing, len(rows)))
+    # As-is configuration = the Dev_* flags of the open entries in the findings files.  The shared
+    # default Acknowledge was repaired in /repo (fixed: entry), so as-is = contract and every
+    # deviation is reported under its own key.  If the entry is ever re-opened, the second TLC pass
+    # computes the as-is model's prediction for the same programs.
+    known, _fixed = run.known()
+    if "default-ack-object-shared-by-clients" in known:
+        progs = "".join(json.dumps({"prog": r["prog"]}) + "\n" for r in rows)
+        asis = run.tlc(F, M, M + "_asis.cfg", mode="gen", count=False, timeout=3000, files={"progs.ndjson": progs},
+                       label="as-is model (Dev_SharedDefaultAck) on the same programs")
+        bykey = {json.dumps(r["prog"], sort_keys=True): r["hist"] for r in asis.rows}
+        missing = 0
+        for r in rows:
+            a = bykey.get(json.dumps(r["prog"], sort_keys=True))
+            if a is None:
+                missing += 1
+            else:
+                r["asis"] = a
+        if missing:
+            raise vf.Inconclusive("as-is pass lost %d of %d programs" % (missing, len(rows)))
     run.log("TLC: %d states; %d programs to replay" % (run.cov["states"], len(rows)))
     results = run.go_run(exe[0], [], cases=rows, timeout=2400)
     if len(results) != len(rows):
